@@ -433,7 +433,7 @@ Proof.
   destruct (poly_max_sound depth _ lo hi l0 u0 Hle E) as [(x & A & B & C) D].
   split.
   - exists x. split; [exact A|]. split; [exact B|].
-    apply eqR_Qeq. rewrite Q2R_Qred, Q2R_opp.
+    apply eqR_Qeq. Show. rewrite Q2R_Qred, Q2R_opp.
     rewrite <- (Qeq_eqR _ _ C). rewrite <- !reval_Q, reval_neg. ring.
   - intros y Hy. rewrite Q2R_Qred, Q2R_opp.
     pose proof (D y Hy) as D'. rewrite reval_neg in D'. lra.
